@@ -32,7 +32,8 @@ ASSUMPTIONS = ['threaded client runs under the FIFO schedule for the order '
                'PONG data is compared as decoded values (a PING whose text is '
                'a JSON literal comes back re-serialised); the literal null is '
                'not used as PING data']
-REQUIRED = ['pong_echo', 'downstream_exactly_once', 'upstream_exactly_once',
+REQUIRED = ['pong_echo', 'handshake_extras', 'downstream_exactly_once',
+            'upstream_exactly_once',
             'binary_channel', 'url_oracle', 'upgrade_conduct',
             'silence_bound']
 SHARD_TIMEOUT = {'quick': 500, 'thorough': 3400}
@@ -79,12 +80,26 @@ def run_conversation(rec, case):
             script['probe'] = probe
     sched_seed = rng.randrange(1 << 30) if (kind == 'T' and
                                             rng.random() < 0.4) else 0
+    # packets that ride along with the OPEN packet in the handshake response
+    # (a server application may greet from its connect handler)
+    down0 = []
+    if transport != 'websocket' and rng.random() < 0.3:
+        for k in range(rng.randint(1, 3)):
+            i, data, kd = mk_payload(rng, 'G', k)
+            down0.append((i, data))
+        script['open_extra'] = [wire_of(d) for i, d in down0]
+        rec.count('handshake_extras')
+    plain = kind == 'A' and rng.random() < 0.3
+    legacy = rng.random() < 0.2
     w = cli.make_world(kind, script=script,
                        policy='random' if sched_seed else 'fifo',
                        seed=sched_seed, yield_prob=0.3 if sched_seed else 0.0,
-                       request_timeout=5)
-    desc = 'client=%s transport=%s probe=%s' % (
-        'Client' if kind == 'T' else 'AsyncClient', transport, probe)
+                       request_timeout=5, plain_handlers=plain,
+                       legacy_disconnect=legacy)
+    desc = 'client=%s%s%s transport=%s probe=%s extras=%d' % (
+        'Client' if kind == 'T' else 'AsyncClient',
+        ' plain-handlers' if plain else '', ' legacy-disconnect' if legacy
+        else '', transport, probe, len(down0))
     steps = []
 
     def V(key, msg):
@@ -124,7 +139,7 @@ def run_conversation(rec, case):
             else:
                 srv.push(*[p if isinstance(p, str) else
                            'b' + base64.b64encode(p).decode() for p in packets])
-        down, up, pings = [], [], []
+        down, up, pings = list(down0), [], []
         nd = nu = 0
         silent_at = None
         nsteps = rng.randint(3, 14)
@@ -277,7 +292,7 @@ def run_conversation(rec, case):
                 V('silence-not-detected', 'server silent since t=%.3f, no '
                   'disconnect by t=%.3f' % (silent_at, w.now))
             else:
-                if dis[0]['reason'] != 'transport error':
+                if dis[0]['reason'] not in ('transport error', '?legacy'):
                     V('silence-reason', 'reason %r' % dis[0]['reason'])
                 if dis[0]['t'] > silent_at + bound:
                     V('silence-detected-late', 'silent since %.3f, detected '
